@@ -32,7 +32,12 @@ def build(ck, src, obs=None):
     frm = src.bv("msg.from", 64)
     ts = src.bv("msg.timestamp", 64)
     source = src.bv("conn.source", 64)
-    hyps = list(src.hyps)
+    extra = []
+    # string lengths are part of the input (pinned so that the native driver can build strings of exactly these lengths)
+    strlen = z3.Function("strlen", z3.BitVecSort(64), z3.BitVecSort(64))
+    for nm, sid in (("msg.protocol", protocol), ("msg.from", frm), ("conn.source", source)):
+        ln = src.pin(nm + ".len", strlen(sid))
+        extra.append(z3.And(z3.UGE(ln, 17), z3.ULE(ln, 200)))
     if obs is None:
         st = State()
         adt = eng.struct_adt("WireMessage")
@@ -45,7 +50,6 @@ def build(ck, src, obs=None):
         st2, res = eng.call(ck.fn(r"^network::parse_protocol_message$|^parse_protocol_message$"), [rbytes, rsrc], st)
         now = st2.clock
         now_s = src.pin("now.s", now.f[0]) if now is not None else src.bv("now.s", 64)
-        hyps += src.hyps[len(hyps):]
         pc = st2.pc
         some = res.idx == bv(1, 8)
         info = eng.enum_info("P2PEvent")
@@ -72,7 +76,7 @@ def build(ck, src, obs=None):
         "source_is_the_connection_identity_never_the_payload_claim": z3.Implies(some, z3.And(is_msg, source_id == source)),
         "topic_and_payload_are_the_decoded_fields": z3.Implies(some, z3.And(topic_id == protocol, data_id == data)),
     }
-    hyps += [frm != source, ~source != source, ~protocol != protocol, ~data != data]
+    hyps = list(src.hyps) + extra + [frm != source, z3.ULT(now_s, bv(1 << 40, 64))]
     return {"eng": eng, "hyps": hyps, "goals": {g: z3.Implies(pc, f) for g, f in G.items()},
             "reach": {"reach_surfaced": z3.And(pc, some), "reach_rejected_stale": z3.And(pc, ok, z3.Not(some), z3.ULT(ts, now_s)),
                       "reach_rejected_future": z3.And(pc, ok, z3.Not(some), z3.UGT(ts, now_s))}}
@@ -84,7 +88,7 @@ def run(tier):
     def reg():
         src = Src()
         R = build(ck, src)
-        rp = harness.make_replayer(ck, "network", "parse_frame", lambda s, obs: build(ck, s, obs)["goals"], {})
+        rp = harness.make_replayer(ck, "network", "parse_frame", lambda s, obs: build(ck, s, obs), {})
         ck.register_src("parse_frame", {}, src)
         for g, f in R["goals"].items():
             ck.prove(f"frame/{g}", R["eng"], R["hyps"], f, on_sat=rp, meta={"goal": g})
@@ -107,4 +111,4 @@ def run(tier):
 
 
 def replay(path):
-    return harness.replay_file(path, lambda ck, driver, params: (lambda s, obs: build(ck, s, obs)["goals"]))
+    return harness.replay_file(path, lambda ck, driver, params: (lambda s, obs: build(ck, s, obs)))
